@@ -21,9 +21,9 @@ type c01Cell struct {
 	expect string // accept | reject | either
 	// the logical payload the client actually sends (for the "no file for a
 	// hash the payload does not have" check)
-	payload []byte
-	content []byte // the blob the declared digest was computed from
-	presentBefore bool // the true blob was uploaded before this cell
+	payload       []byte
+	content       []byte // the blob the declared digest was computed from
+	presentBefore bool   // the true blob was uploaded before this cell
 }
 
 func flip(b []byte, i int) []byte {
